@@ -175,7 +175,7 @@ func mustFollow(from ssa.Instruction, ev func(ssa.Instruction) bool) bool {
 }
 
 func runC17(c *core.Ctx) {
-	c.Explanation = "Structural necessary conditions of the header store laws, decided on SSA: (hdr.canon) the assigned-key set (headerKeyStore) is indexed, in IsAssigned, Assign and Unassign alike, only with the result of one canonicaliser applied to the name (net/http canonicalises header names, so set/unset under different spellings must hit the same bookkeeping key), and the set is touched nowhere else; (hdr.pair) on the VCL-visible write paths of interpreter/variable every Header.Del(k) is followed on all paths to the exit by Unassign(k) (or a Set/Add of the same k), and every Header.Set/Add(k, v) by Assign(k) — otherwise a header reads as set after unset, or as not set after `set … = \"\"`; (hdr.wild) a loop over the canonical keys of Header that compares a key with a name taken from VCL does so case-insensitively / after canonicalising the name; (hdr.namecase) the header helpers of interpreter/variable never compare the name (as the program spelled it) with a constant case-sensitively; (hdr.cookiereplace) every AddCookie in the header helpers is dominated by the removal of the cookie of the same name; (hdr.sep) getters and setters of one object use the same sub-field separator constant. Decides the pairing/keying shape for all operation sequences; not the regular-expression sub-field algebra."
+	c.Explanation = "Structural necessary conditions of the header store laws, decided on SSA: (hdr.canon) the assigned-key set (headerKeyStore) is indexed, in IsAssigned, Assign and Unassign alike, only with the result of one canonicaliser applied to the name (net/http canonicalises header names, so set/unset under different spellings must hit the same bookkeeping key), and the set is touched nowhere else; (hdr.pair) on the VCL-visible write paths of interpreter/variable every Header.Del(k) is followed on all paths to the exit by Unassign(k) (or a Set/Add of the same k), and every Header.Set/Add(k, v) by Assign(k) — otherwise a header reads as set after unset, or as not set after `set … = \"\"`; (hdr.wild) a loop over the canonical keys of Header that compares a key with a name taken from VCL does so case-insensitively / after canonicalising the name; (hdr.namecase) the header helpers of interpreter/variable never compare the name (as the program spelled it) with a constant case-sensitively; (hdr.cookiereplace) every AddCookie in the header helpers is dominated by the removal of the cookie of the same name; (hdr.sep) getters and setters of one object use the same sub-field separator constant. Decides the pairing/keying shape for all operation sequences; not the regular-expression sub-field algebra. (hdr.exact) names from the program are matched exactly outside the wildcard form; (hdr.helpers) every scope serves *.http.* through the shared helpers; hdr.pair requires the same object."
 	c.NotCovered = []string{"the regular-expression sub-field algebra of GetField/setField/unsetField", "value truncation at newline beyond the flow of strings.Cut into Header.Set", "cookie sub-fields (request Cookie header is rewritten by its own helpers)"}
 	prog := c.Prog
 	checkHeaderNameCase(c)
